@@ -153,7 +153,7 @@ func (w *xworld) apply(h *hist, e xev, logIt bool) {
 			ctx, cancel = context.WithCancel(context.Background())
 			done = make(chan struct{})
 			go func() { defer close(done); h.srv.Query(ctx, dht.NewAddr(p.addr), "ping", dht.QueryInput{}) }()
-			q, ok := h.waitOut(p.addr.String(), "q", nil, 20*time.Second)
+			q, ok := h.waitOut(p.addr.String(), "q", nil, 60*time.Second)
 			if !ok {
 				fail("own ping never written")
 			}
@@ -182,7 +182,7 @@ func (w *xworld) apply(h *hist, e xev, logIt bool) {
 	case "AddNode":
 		h.srv.AddNode(krpc.NodeInfo{ID: p.id, Addr: krpc.NodeAddr{IP: p.addr.IP, Port: p.addr.Port}})
 		if p.id == (krpc.ID{}) {
-			h.waitOut(p.addr.String(), "q", nil, 20*time.Second)
+			h.waitOut(p.addr.String(), "q", nil, 60*time.Second)
 		}
 		emit("AddNode", h.senderOf(p), false, false, false)
 	case "PingFail":
@@ -191,7 +191,7 @@ func (w *xworld) apply(h *hist, e xev, logIt bool) {
 		ctx, cancel := context.WithCancel(context.Background())
 		done := make(chan struct{})
 		go func() { defer close(done); h.srv.VerifQuestionablePing(ctx, dht.NewAddr(p.addr), p.id) }()
-		if _, ok := h.waitOut(p.addr.String(), "q", nil, 20*time.Second); !ok {
+		if _, ok := h.waitOut(p.addr.String(), "q", nil, 60*time.Second); !ok {
 			fail("questionable ping never written")
 		}
 		cancel()
